@@ -65,6 +65,22 @@ type oldDB struct {
 	ids        *node.Ids
 	contracts  map[felt.Felt]contractRec // deprecated per-field contract records found in base (headstate oracle)
 	txCounts   []int
+
+	// L1 head record of the database (nil = none). The history-prune migration computes its cut-off from it; the
+	// node guarantees its presence before the runner starts whenever --prune is on (node.fetchL1HeadIfMissing).
+	l1Head *core.L1Head
+	l1Pos  string // "none" | "behind" | "equal" | "ahead"
+	// owner maps the prefix of an observation key of node.Observe ("h<block hash>", "t<tx hash>", "m<msg hash>") to
+	// the number of the block the identifier belongs to.
+	owner map[string]uint64
+}
+
+// dbOpts are constraints a caller puts on the generated database (forced skeletons).
+type dbOpts struct {
+	fixedN    int  // >= 0: exactly this many blocks
+	minBlocks int  // at least this many blocks
+	oldLayout bool // never the pre-pruned shape
+	l1Near    bool // an L1 head record at most one block behind the local head (or ahead of it)
 }
 
 func harnessErr(err error, what string) {
@@ -75,9 +91,10 @@ func harnessErr(err error, what string) {
 
 // buildOldDB draws a chain, stores it through the real Blockchain.Store (current layout), optionally prunes a
 // prefix with the real pruner, and converts the image back to the previous layout.
-func buildOldDB(rt *rapid.T, c *stats.Case) *oldDB { return buildOldDBSized(rt, c, -1) }
+func buildOldDB(rt *rapid.T, c *stats.Case) *oldDB { return buildOldDBOpts(rt, c, dbOpts{fixedN: -1}) }
 
-func buildOldDBSized(rt *rapid.T, c *stats.Case, fixedN int) *oldDB {
+func buildOldDBOpts(rt *rapid.T, c *stats.Case, opts dbOpts) *oldDB {
+	fixedN := opts.fixedN
 	u := gen.NewUniverse(rt)
 	maxBlocks := stats.Pick(26, 45)
 	var n int
@@ -93,13 +110,16 @@ func buildOldDBSized(rt *rapid.T, c *stats.Case, fixedN int) *oldDB {
 	default:
 		n = rapid.IntRange(0, maxBlocks).Draw(rt, "nblocks")
 	}
+	if n < opts.minBlocks {
+		n = opts.minBlocks + rapid.IntRange(0, 6).Draw(rt, "nblocks-above-min")
+	}
 	if fixedN >= 0 {
 		n = fixedN
 	}
 	leadEmpty := rapid.SampledFrom([]int{0, 0, 0, 1, 3, 10, 12, 21}).Draw(rt, "leadempty")
 	ch := gen.NewChain(u, gen.Opts{MaxTxs: 3, MaxEvents: 2, MinVersionIdx: rapid.IntRange(0, 3).Draw(rt, "minver")})
 	nd := node.New(false, memory.New(), u.Net)
-	o := &oldDB{u: u, ids: &node.Ids{NoState: true}}
+	o := &oldDB{u: u, ids: &node.Ids{NoState: true}, owner: map[string]uint64{}}
 	excludeLeadingEmpty := stats.Known(keyEmptyGap)
 	anyTx := false
 	for i := 0; i < n; i++ {
@@ -128,12 +148,50 @@ func buildOldDBSized(rt *rapid.T, c *stats.Case, fixedN int) *oldDB {
 		}
 		o.ids.AddBlock(b)
 		o.txCounts = append(o.txCounts, len(b.B.Transactions))
+		o.owner["h"+b.B.Hash.String()] = b.Num()
+		for _, tx := range b.B.Transactions {
+			o.owner["t"+tx.Hash().String()] = b.Num()
+			if l1, ok := tx.(*core.L1HandlerTransaction); ok {
+				o.owner[fmt.Sprintf("m%x", l1.MessageHash())] = b.Num()
+			}
+		}
 	}
 	o.blocks = ch.Blocks
 	native := nd.DB.(*memory.Database)
 
+	// L1 head record, written the way the L1 client does (Blockchain.SetL1Head): whatever block L1 has verified,
+	// behind, at, or - while the node is still syncing - ahead of the local head.
+	o.l1Pos = rapid.SampledFrom([]string{"none", "behind", "equal", "equal", "ahead"}).Draw(rt, "l1head")
+	if opts.l1Near && (o.l1Pos == "none" || o.l1Pos == "behind") {
+		o.l1Pos = rapid.SampledFrom([]string{"behind-by-1", "equal", "ahead"}).Draw(rt, "l1head-near")
+	}
+	if n == 0 && o.l1Pos != "none" {
+		o.l1Pos = "ahead"
+	}
+	if n == 1 && strings.HasPrefix(o.l1Pos, "behind") {
+		o.l1Pos = "equal"
+	}
+	if o.l1Pos != "none" {
+		var num uint64
+		switch o.l1Pos {
+		case "behind":
+			num = uint64(rapid.IntRange(0, n-2).Draw(rt, "l1head-number"))
+		case "behind-by-1":
+			num, o.l1Pos = uint64(n-2), "behind"
+		case "equal":
+			num = uint64(n - 1)
+		default:
+			num = uint64(n + rapid.IntRange(0, 4).Draw(rt, "l1head-ahead"))
+		}
+		o.l1Head = &core.L1Head{BlockNumber: num, BlockHash: gen.FP(0x11ead0000 + num), StateRoot: gen.FP(0x57a7e0000 + num)}
+		if num < uint64(n) {
+			o.l1Head.BlockHash, o.l1Head.StateRoot = o.blocks[num].B.Hash, o.blocks[num].B.GlobalStateRoot
+		}
+		harnessErr(nd.BC.SetL1Head(o.l1Head), "SetL1Head")
+	}
+
 	o.shape = "old-layout"
-	if n >= 2 && rapid.IntRange(0, 3).Draw(rt, "shape") == 0 {
+	if n >= 2 && !opts.oldLayout && rapid.IntRange(0, 3).Draw(rt, "shape") == 0 {
 		o.shape = "pruned"
 		o.pruned = uint64(rapid.IntRange(1, n-1).Draw(rt, "prunedprefix"))
 		_, oldest, err := pruner.PruneUpto(context.Background(), native, o.pruned, 1<<30)
@@ -199,11 +257,12 @@ func buildOldDBSized(rt *rapid.T, c *stats.Case, fixedN int) *oldDB {
 	it.Close()
 
 	c.Label("shape:" + o.shape)
+	c.Label("l1head:" + o.l1Pos)
 	c.Labelf("blocks:%s", bucketOf(n))
 	if n > 0 && leadEmpty > 0 {
 		c.Label("leading-empty-blocks")
 	}
-	c.Fp("shape %s pruned %d n %d txs %v", o.shape, o.pruned, n, o.txCounts)
+	c.Fp("shape %s pruned %d n %d txs %v l1 %s", o.shape, o.pruned, n, o.txCounts, o.l1Desc())
 	for _, b := range o.blocks {
 		c.Fp("%s", b.B.Hash.ShortString())
 	}
@@ -251,6 +310,14 @@ func hasPrefixKey(d db.KeyValueReader, prefix []byte) (bool, string) {
 // accessors with their original content, derived lookups work, the per-tx buckets are empty. Returns "" or a
 // description of the first discrepancy.
 func (o *oldDB) postBlockTransactions(d db.KeyValueReader) string {
+	return o.postBlockTransactionsFrom(d, o.pruned, true)
+}
+
+// postBlockTransactionsFrom: the same for the blocks at or above floor. hashLookups=false leaves out the hash-keyed
+// reverse lookups (tx hash -> (block, index), L1 message hash -> tx hash): the history-prune migration wipes and
+// rebuilds them, so they are legitimately absent on an image it was interrupted on (no node can serve from such an
+// image: the runner must finish the opted-into migration first and opting out is refused).
+func (o *oldDB) postBlockTransactionsFrom(d db.KeyValueReader, floor uint64, hashLookups bool) string {
 	if has, k := hasPrefixKey(d, db.TransactionsByBlockNumberAndIndex.Key()); has {
 		return "old bucket TransactionsByBlockNumberAndIndex not empty: " + k
 	}
@@ -259,7 +326,7 @@ func (o *oldDB) postBlockTransactions(d db.KeyValueReader) string {
 	}
 	for _, b := range o.blocks {
 		num := b.Num()
-		if num < o.pruned {
+		if num < floor {
 			continue
 		}
 		T, R := b.B.Transactions, b.B.Receipts
@@ -320,6 +387,9 @@ func (o *oldDB) postBlockTransactions(d db.KeyValueReader) string {
 			if err != nil || st.Reverted != R[i].Reverted || st.RevertReason != R[i].RevertReason {
 				return fmt.Sprintf("block %d: execution status (%d) = %+v, %v", num, i, st, err)
 			}
+			if !hashLookups {
+				continue
+			}
 			th := (*felt.TransactionHash)(T[i].Hash())
 			txh, err := core.GetTransactionByHash(d, th)
 			if err != nil || js(txh) != wt {
@@ -346,9 +416,13 @@ func (o *oldDB) postBlockTransactions(d db.KeyValueReader) string {
 // postStateDiffLength: every retained block's commitments carry StateDiff.Length() of the ORIGINAL state update and
 // are otherwise unchanged.
 func (o *oldDB) postStateDiffLength(d db.KeyValueReader) string {
+	return o.postStateDiffLengthFrom(d, o.pruned)
+}
+
+func (o *oldDB) postStateDiffLengthFrom(d db.KeyValueReader, floor uint64) string {
 	for _, b := range o.blocks {
 		num := b.Num()
-		if num < o.pruned {
+		if num < floor {
 			continue
 		}
 		cm, err := core.GetBlockCommitmentByBlockNum(d, num)
@@ -394,15 +468,118 @@ func (o *oldDB) postHeadState(d db.KeyValueReader) string {
 }
 
 func (o *oldDB) postcondition(idx int, d db.KeyValueReader) string {
+	return o.postconditionFrom(idx, d, o.pruned, true)
+}
+
+// postconditionFrom: post-condition of migration idx for the blocks at or above floor (see postBlockTransactionsFrom
+// for hashLookups).
+func (o *oldDB) postconditionFrom(idx int, d db.KeyValueReader, floor uint64, hashLookups bool) string {
 	switch idx {
 	case idxBlockTransactions:
-		return o.postBlockTransactions(d)
+		return o.postBlockTransactionsFrom(d, floor, hashLookups)
 	case idxStateDiffLength:
-		return o.postStateDiffLength(d)
+		return o.postStateDiffLengthFrom(d, floor)
 	case idxHeadState:
 		return o.postHeadState(d)
 	}
 	return ""
+}
+
+// --- history pruning ------------------------------------------------------------------------------------------
+
+func (o *oldDB) l1Desc() string {
+	if o.l1Head == nil {
+		return "none"
+	}
+	return fmt.Sprintf("%s(%d)", o.l1Pos, o.l1Head.BlockNumber)
+}
+
+// docFloor is the retention floor the history-prune migration documents for this database ("keep blocks in
+// [pivot - N, l2_head], prune below", pivot = min(L1 head, local head); nothing is pruned when the chain is
+// shorter than the retention window): the oldest block that MUST still be there afterwards is never above it.
+func (o *oldDB) docFloor(retained uint64) uint64 {
+	if len(o.blocks) == 0 || o.l1Head == nil {
+		return o.pruned
+	}
+	pivot := min(o.l1Head.BlockNumber, uint64(len(o.blocks)-1))
+	if pivot < retained {
+		return o.pruned
+	}
+	return max(pivot-retained, o.pruned)
+}
+
+// imgFloor is the actual retention floor of an image (pruner.OldestRetainedBlock; an image without any block: 0,
+// an image of a non-empty chain that retains nothing: the chain length).
+func (o *oldDB) imgFloor(img db.KeyValueReader) uint64 {
+	f, err := pruner.OldestRetainedBlock(img)
+	if errors.Is(err, db.ErrKeyNotFound) {
+		return uint64(len(o.blocks))
+	}
+	harnessErr(err, "OldestRetainedBlock")
+	return f
+}
+
+// obsBlock maps an observation key of node.Observe to the block it is about (ok=false: a chain-level answer such as
+// height, head, L1 head).
+func (o *oldDB) obsBlock(key string) (uint64, bool) {
+	cut := strings.IndexByte(key, '/')
+	pfx := key
+	if cut >= 0 {
+		pfx = key[:cut]
+	}
+	if len(pfx) > 1 && pfx[0] == 'n' {
+		var n uint64
+		if _, err := fmt.Sscanf(pfx[1:], "%d", &n); err == nil {
+			return n, true
+		}
+	}
+	n, ok := o.owner[pfx]
+	return n, ok
+}
+
+// readerAPIAboveFloor compares the whole Reader API on img with the natively written, UNPRUNED twin: every answer
+// about a block at or above floor (and every chain-level answer) must be identical; an answer about a block below
+// the floor is either an error (reported missing) or identical to the original - never a partial or different one.
+func (o *oldDB) readerAPIAboveFloor(img *memory.Database, floor uint64, max int) []string {
+	got := node.New(false, img.Copy(), o.u.Net).Observe(o.ids)
+	keys := make([]string, 0, len(got)+len(o.nativeObs))
+	seen := map[string]bool{}
+	for k := range got {
+		keys, seen[k] = append(keys, k), true
+	}
+	for k := range o.nativeObs {
+		if !seen[k] {
+			keys = append(keys, k)
+		}
+	}
+	sort.Strings(keys)
+	var out []string
+	for _, k := range keys {
+		g, gok := got[k]
+		w := o.nativeObs[k]
+		if gok && g == w {
+			continue
+		}
+		num, isBlock := o.obsBlock(k)
+		if isBlock && (num < floor || num >= uint64(len(o.blocks))) && (!gok || strings.HasPrefix(g, "!")) {
+			continue // below the floor (or beyond the chain): reported missing
+		}
+		trunc := func(s string) string {
+			if len(s) > 300 {
+				return s[:300] + "…"
+			}
+			return s
+		}
+		where := "chain-level"
+		if isBlock {
+			where = fmt.Sprintf("block %d, floor %d", num, floor)
+		}
+		out = append(out, fmt.Sprintf("%s (%s): %s  VS native  %s", k, where, trunc(g), trunc(w)))
+		if len(out) >= max {
+			break
+		}
+	}
+	return out
 }
 
 // readMeta reads the schema metadata of an image (zero when absent) and the intermediate states.
@@ -559,4 +736,44 @@ func (o *oldDB) emptyGapClass(img db.KeyValueReader) bool {
 		}
 	}
 	return found
+}
+
+// staleStagerClass reports whether img is in the input class of known finding keyPruneStaleStager: the history-prune
+// migration is not applied, its persisted intermediate state is a STAGER checkpoint (restorer not begun) above the
+// pinned floor, and the live history buckets hold an entry of a block in [floor, checkpoint) that has no copy in the
+// scratch namespace. The resumed migration stages only the blocks from the checkpoint on, wipes the live history
+// buckets and restores them from scratch - that entry is lost. (The stager's own interruption never produces such
+// an image: everything below the checkpoint it returns was staged and committed. It takes a later lifetime that ran
+// through to the scratch wipe and died before the runner's "applied" commit.)
+func (o *oldDB) staleStagerClass(img db.KeyValueReader) bool {
+	md, inter := readMeta(img, nRealMigrations)
+	st, ok := inter[idxHistoryPruner]
+	if md.CurrentVersion.Has(idxHistoryPruner) || !ok || len(st) != 24 {
+		return false
+	}
+	stager, restorer, floor := binary.BigEndian.Uint64(st[0:8]), binary.BigEndian.Uint64(st[8:16]), binary.BigEndian.Uint64(st[16:24])
+	if restorer != 0 || stager <= floor {
+		return false
+	}
+	for _, bk := range []db.Bucket{db.DeprecatedContractStorageHistory, db.DeprecatedContractNonceHistory, db.DeprecatedContractClassHashHistory} {
+		it, err := img.NewIterator(bk.Key(), true)
+		harnessErr(err, "iterate history")
+		for ok := it.First(); ok; ok = it.Next() {
+			key := it.Key()
+			if len(key) < 9 {
+				continue
+			}
+			if b := binary.BigEndian.Uint64(key[len(key)-8:]); b < floor || b >= stager {
+				continue
+			}
+			has, err := img.Has(append([]byte{byte(db.Temporary)}, key...))
+			harnessErr(err, "scratch lookup")
+			if !has {
+				it.Close()
+				return true
+			}
+		}
+		it.Close()
+	}
+	return false
 }
